@@ -163,9 +163,21 @@ func checkWLStructure(w gen.WLSpec, m sepModel, pw *spg.Password) error {
 			}
 		}
 	case "nested":
+		il := 1 + len(w.Sep.Preset)%3
+		mx := 0
+		for k := range titles {
+			if len(k) > mx {
+				mx = len(k)
+			}
+		}
+		for k := range keptSet {
+			if len(k) > mx {
+				mx = len(k)
+			}
+		}
 		for g, v := range gaps {
-			if !keptSet[v] && !titles[v] {
-				return fmt.Errorf("gap %d holds %q, the nested separator recipe yields list words", g, v)
+			if !wlLanguage(v, keptSet, titles, mx, il, w.Sep.Const, []string{""}) {
+				return fmt.Errorf("gap %d holds %q, which is not a %d-word password of the nested separator recipe (scheme %s)", g, v, il, w.Sep.Const)
 			}
 		}
 	case "script":
@@ -234,7 +246,8 @@ func TestC05(t *testing.T) {
 	ev.Check(t, "c05_structure", ev.N(96000, 1000000), func(t *rapid.T) c05Case {
 		w := gen.WL(t, gen.WLOpts{List: gen.WordListOpts{Min: 1, Max: 12}, MaxLen: 12, AllowScript: true, UnknownCap: true})
 		if rapid.IntRange(0, 9).Draw(t, "nested_sep") == 0 {
-			w.Sep = gen.SepSpec{Kind: "nested", Const: rapid.SampledFrom([]string{"none", "all", "first"}).Draw(t, "nested_scheme")}
+			w.Sep = gen.SepSpec{Kind: "nested", Const: rapid.SampledFrom([]string{"none", "all", "first"}).Draw(t, "nested_scheme"),
+				Preset: rapid.SampledFrom([]string{"", "x", "xx"}).Draw(t, "nested_len")}
 		}
 		if rapid.IntRange(0, 11).Draw(t, "long") == 0 {
 			w.Length = rapid.IntRange(13, 300).Draw(t, "long_length") // "all lengths >= 1"
